@@ -109,7 +109,13 @@ impl<'a> Reduced<'a> {
 
 impl ReducedWord {
     pub const fn one(ring: &ConstSingleDivisor) -> Self {
-        Self(1 << ring.shift())
+        let one = 1 << ring.shift();
+        if one == ring.normalized_divisor() {
+            // the only residue modulo 1 is zero
+            Self(0)
+        } else {
+            Self(one)
+        }
     }
 
     #[inline]
